@@ -27,10 +27,11 @@ type CloneCase struct {
 	Init   int         `json:"init"`             // how the root is built: number of initial Dot appends; -1 = an empty Statement
 	Nils   int         `json:"nils,omitempty"`   // nil items placed inside the root (they render as nothing)
 	Clause bool        `json:"clause,omitempty"` // case-clause scenario: heads (Case/Default) on the original, Blocks on clones
+	Deep   int         `json:"deep,omitempty"`   // chain scenario: x = x.Clone().Dot(t) repeated Deep times
 	Steps  []CloneStep `json:"steps"`
 }
 
-func (c *CloneCase) size() int { return 3*len(c.Steps) + c.Init + 2*c.Nils + 2 }
+func (c *CloneCase) size() int { return 3*len(c.Steps) + c.Init + 2*c.Nils + 2 + c.Deep }
 
 type propC20 struct{}
 
@@ -55,6 +56,13 @@ func (propC20) Gen(seed uint64, tier string) *Case {
 		maxSteps, maxClones = 120, 8
 	}
 	cc := &CloneCase{Init: r.Intn(4)}
+	if r.Chance(0.004) {
+		// a long chain of nested clones (the idiom sum = sum.Clone().Op("+").Id(x) in a loop)
+		cc.Deep = r.Pick2(300, 1100, 2600)
+		c := &Case{Property: "C20", Seed: seed, Tier: tier, Clone: cc}
+		c.Cfg, _ = json.Marshal(map[string]interface{}{"deep": cc.Deep})
+		return c
+	}
 	switch r.Intn(12) {
 	case 0:
 		cc.Init = -1 // the original is empty when it is cloned
@@ -196,6 +204,9 @@ func (propC20) Check(c *Case) (*Violation, *RunInfo) {
 	next := func() string { uniq++; return "t" + strconv.Itoa(uniq) }
 	if cc.Clause {
 		return checkClause(c, ri)
+	}
+	if cc.Deep > 0 {
+		return checkDeep(c, ri)
 	}
 	root := &cloneActor{st: jen.Id("t0"), parent: -1, own: []string{"t0"}}
 	if cc.Init < 0 {
@@ -444,6 +455,16 @@ func (propC20) Shrink(c *Case, v *Violation) []*Case {
 		nc.Clone = &CloneCase{Init: init, Steps: steps}
 		return &nc
 	}
+	if cc.Deep > 0 {
+		for _, d := range []int{cc.Deep / 2, cc.Deep - 100, cc.Deep - 1} {
+			if d > 0 && d < cc.Deep {
+				nc := *c
+				nc.Clone = &CloneCase{Deep: d}
+				out = append(out, &nc)
+			}
+		}
+		return out
+	}
 	if v.Op >= 0 && v.Op+1 < len(cc.Steps) {
 		out = append(out, mk(append([]CloneStep{}, cc.Steps[:v.Op+1]...), cc.Init))
 	}
@@ -643,6 +664,56 @@ func checkClause(c *Case, ri *RunInfo) (*Violation, *RunInfo) {
 	}
 	ri.Nontrivial = hasHead && len(blocks) > 0
 	ri.Key = digest("clause", trace)
+	ri.Inter = ri.Key
+	return nil, ri
+}
+
+
+// checkDeep: a chain x0, x1 = x0.Clone().Dot(t1), x2 = x1.Clone().Dot(t2), ... Every
+// link is an unmodified-then-extended clone of the previous one; the last must render all
+// tokens in order, however long the chain, and the original stays what it was.
+func checkDeep(c *Case, ri *RunInfo) (*Violation, *RunInfo) {
+	n := c.Clone.Deep
+	root := jen.Id("t0")
+	cur := root
+	want := []string{"t0"}
+	for i := 1; i <= n; i++ {
+		cur = cur.Clone().Dot("t" + strconv.Itoa(i))
+		want = append(want, ".", "t"+strconv.Itoa(i))
+		if i == n/2 || i == n {
+			for _, obs := range []string{"formatted", "raw"} {
+				var got []string
+				var err error
+				if obs == "raw" {
+					got, err = rawTokens(cur)
+				} else {
+					var buf bytes.Buffer
+					func() {
+						defer func() {
+							if p := recover(); p != nil {
+								err = fmt.Errorf("panic: %v", p)
+							}
+						}()
+						err = cur.Render(&buf)
+					}()
+					got = scanTokens(buf.Bytes())
+				}
+				if err != nil {
+					return &Violation{Rule: "C20-render-failed", Op: i, Detail: fmt.Sprintf("a chain of %d nested clones, each extended by one selector, does not render (%s): %v", i, obs, trunc(err.Error(), 300))}, ri
+				}
+				if strings.Join(got, " ") != strings.Join(want, " ") {
+					return &Violation{Rule: "C20-tokens-corrupted", Op: i, Detail: fmt.Sprintf("a chain of %d nested clones renders %d tokens (%s), its appends are %d tokens; first tokens %q", i, len(got), obs, len(want), strings.Join(got[:min(len(got), 12)], " "))}, ri
+				}
+			}
+		}
+	}
+	if got, err := rawTokens(root); err != nil || strings.Join(got, " ") != "t0" {
+		return &Violation{Rule: "C20-tokens-corrupted", Op: n, Detail: fmt.Sprintf("the original of a chain of %d clones renders %q (err %v)", n, strings.Join(got, " "), err)}, ri
+	}
+	ri.count("deep_clone_chains", 1)
+	ri.Steps = uint64(n)
+	ri.Nontrivial = true
+	ri.Key = digest("deep", n)
 	ri.Inter = ri.Key
 	return nil, ri
 }
